@@ -196,7 +196,7 @@ def is_tainted(tree, an0):
     return False
 
 
-def taint_freezes(k: int, A: str, B: str, C: str, rl: bool, rg: bool, hl: bool) -> bool:
+def taint_freezes(k: int, A: str, B: str, C: str, rl: bool, rg: bool, hl: bool, exc: bool) -> bool:
     """
     pre: 0 <= k < len(skeletons.TAINT_TEMPLATES)
     post: _
@@ -207,7 +207,7 @@ def taint_freezes(k: int, A: str, B: str, C: str, rl: bool, rg: bool, hl: bool) 
     if not is_tainted(tree, an0):
         return True     # the trigger name is shadowed by a hole: the property does not apply
     snap = renamecheck.Snapshot(tree)
-    out = renamecheck.run_pipeline(tree, rl, rg, hl, extra={'remove_builtin_exception_brackets': True})
+    out = renamecheck.run_pipeline(tree, rl, rg, hl, extra={'remove_builtin_exception_brackets': exc})
     if renamecheck.spelling_changes(snap):
         return False
     # no statement added, no literal replaced by a name: the tree has exactly the nodes it had
@@ -412,7 +412,7 @@ def public_interface_names(k, A, B, C, rl, rg, hl):
     return _public(skeletons.TEMPLATES, chk, k, A, B, C)
 
 
-def public_taint_freezes(k, A, B, C, rl, rg, hl):
+def public_taint_freezes(k, A, B, C, rl, rg, hl, exc=True):
     def chk(text, k, A, B, C):
         import python_minifier
         from vf.stubs import ALL_OFF
@@ -421,7 +421,7 @@ def public_taint_freezes(k, A, B, C, rl, rg, hl):
         if not is_tainted(tree, an0):
             return ''
         out = python_minifier.minify(text, **dict(ALL_OFF, rename_locals=rl, rename_globals=rg, hoist_literals=hl,
-                                                    remove_builtin_exception_brackets=True))
+                                                    remove_builtin_exception_brackets=exc))
         if ast.dump(ast.parse(out)) != ast.dump(tree):
             return 'module uses dynamic name access but minify() changed it to %r' % (out,)
         return ''
